@@ -1,4 +1,5 @@
 import AgModel.Proofs.PoolS2N
+import AgModel.Proofs.PoolS2NComplete
 /-!
 # C06 — Safe-to-notar / safe-to-skip are signalled exactly when the protocol allows
 
@@ -31,6 +32,89 @@ theorem s2n_s2s_once (e : Epoch) (slot : Nat) (ops : List SlotOp) :
 /-- the decision of `check_safe_to_notar` is exactly the condition -/
 theorem checkS2N_decides (e : Epoch) (st : SlotState) (h : Nat) : (st.checkS2N e h).2 = .safe ↔ S2NCond e st h :=
   (checkS2N_safe_iff e st h).1
+
+/-- **Completeness (state form).** In every state reachable by a history of slot operations (admitted votes of
+    every kind in any order, received certificates, block registration and parent certification in any order):
+    if the safe-to-notar condition holds for `h` the signal has been recorded, and if the safe-to-skip condition
+    holds its flag is set. -/
+theorem s2n_s2s_complete (e : Epoch) (hpos : 0 < e.total) (slot : Nat) (ops : List SlotOp) :
+    let st := (slotRun e { slot := slot } ops).1
+    (∀ h, S2NCond e st h → h ∈ st.sent) ∧ (S2SCond e st → st.sentS2S = true) := by
+  refine ⟨fun h c => ?_, slotRun_sinv e ops _ (SInv.init e slot)⟩
+  rcases slotRun_cinv e ops _ (CInv.init e hpos slot) h with x | x
+  · exact x
+  · exact absurd c x.1
+
+theorem s2n_event_sound (e : Epoch) (ops : List SlotOp) (st : SlotState) (h : Nat)
+    (hev : h ∈ (slotRun e st ops).2.2.filterMap s2nHash) : S2NCond e (slotRun e st ops).1 h := by
+  induction ops generalizing st with
+  | nil => simp [slotRun] at hev
+  | cons op ops ih =>
+    simp only [slotRun] at hev ⊢
+    rw [List.filterMap_append, List.mem_append] at hev
+    rcases hev with hev | hev
+    · -- emitted by this step: justified in the state after it, and the condition is monotone afterwards
+      obtain ⟨ev, hm, hs⟩ := List.mem_filterMap.mp hev
+      have hsound := (slotStep_emit e st op).1 ev hm
+      cases ev with
+      | s2n sl hh =>
+        simp only [s2nHash, Option.some.injEq] at hs; subst hs
+        have c := hsound.2
+        clear hsound hev hm ih
+        generalize (slotStep e st op).1 = s1 at c ⊢
+        induction ops generalizing s1 with
+        | nil => exact c
+        | cons op2 ops ih2 => simp only [slotRun]; exact ih2 _ (slotStep_mono e s1 op2 hh c)
+      | _ => simp [s2nHash] at hs
+    · exact ih _ hev
+
+/-- **Exactly when.** After any history of a slot, safe-to-notar for `h` *has been signalled* (at some step of
+    the history) iff its condition holds now. Applied to every prefix of a history, with `s2n_s2s_once`, this says:
+    the signal is raised in the very step after which the condition holds for the first time — whichever of a vote,
+    the node's own vote, the block registration or the parent's certification arrives last — and never again. -/
+theorem s2n_signalled_iff (e : Epoch) (hpos : 0 < e.total) (slot : Nat) (ops : List SlotOp) (h : Nat) :
+    h ∈ (slotRun e { slot := slot } ops).2.2.filterMap s2nHash ↔ S2NCond e (slotRun e { slot := slot } ops).1 h := by
+  constructor
+  · exact s2n_event_sound e ops _ h
+  · intro c
+    have hs := (s2n_s2s_complete e hpos slot ops).1 h c
+    rcases (slotRun_traced e ops { slot := slot }).s2n h hs with x | x
+    · cases x
+    · exact x
+
+/-- **As soon as.** If the condition does not hold after the history `pre` and holds after one more operation
+    `op`, then this very operation emits the safe-to-notar event for `h`. -/
+theorem s2n_timely (e : Epoch) (hpos : 0 < e.total) (slot : Nat) (pre : List SlotOp) (op : SlotOp) (h : Nat)
+    (hbefore : ¬ S2NCond e (slotRun e { slot := slot } pre).1 h)
+    (hafter : S2NCond e (slotStep e (slotRun e { slot := slot } pre).1 op).1 h) :
+    h ∈ (slotStep e (slotRun e { slot := slot } pre).1 op).2.2.filterMap s2nHash := by
+  have hrun := slotRun_append e { slot := slot } pre [op]
+  have h1 : (slotRun e { slot := slot } (pre ++ [op])).1 = (slotStep e (slotRun e { slot := slot } pre).1 op).1 := by
+    rw [hrun]; simp [slotRun]
+  have h2 : (slotRun e { slot := slot } (pre ++ [op])).2.2 =
+      (slotRun e { slot := slot } pre).2.2 ++ (slotStep e (slotRun e { slot := slot } pre).1 op).2.2 := by
+    rw [hrun]; simp [slotRun]
+  have := (s2n_signalled_iff e hpos slot (pre ++ [op]) h).mpr (by rw [h1]; exact hafter)
+  rw [h2, List.filterMap_append, List.mem_append] at this
+  rcases this with x | x
+  · exact absurd ((s2n_signalled_iff e hpos slot pre h).mp x) hbefore
+  · exact x
+
+/-- safe-to-skip: if the condition holds after a history, the event has been emitted during it; and it is emitted
+    by the very operation after which the condition holds while the flag was still clear. -/
+theorem s2s_signalled (e : Epoch) (slot : Nat) (ops : List SlotOp)
+    (c : S2SCond e (slotRun e { slot := slot } ops).1) : (slotRun e { slot := slot } ops).2.2.filter isS2S ≠ [] := by
+  have hs := slotRun_sinv e ops _ (SInv.init e slot) c
+  rcases (slotRun_traced e ops { slot := slot }).s2s hs with x | x
+  · cases x
+  · exact x
+
+theorem s2s_timely (e : Epoch) (st : SlotState) (op : SlotOp) (i : SInv e st) (hclear : st.sentS2S = false)
+    (c : S2SCond e (slotStep e st op).1) : (slotStep e st op).2.2.filter isS2S ≠ [] := by
+  have hs := slotStep_sinv e st op i c
+  rcases (slotStep_traced e st op).s2s hs with x | x
+  · rw [hclear] at x; cases x
+  · exact x
 
 /-! non-vacuity: 5 equal validators, node 0 skips, two others notarize block 7 (40 %), block registered
     and parent certified: the last arriving ingredient (here: the parent's certificate) raises the signal. -/
